@@ -8,6 +8,12 @@ correspondence : every hierarchy a real constructor returns is compared with the
                  `c04_levelize` vs `levelize_strength_or_aggregation`, exact;
                  `c04_check` = the proved checker `checkHier` (shapes, strict decrease, A_c = R A P entrywise to
                  1e-10 |R||A||P|, R = P^T / P^H) on the exact rational values of small real hierarchies.
+                 `ext_c04_step` (extension E13) = the model of the guard of each constructor's `_extend_hierarchy`
+                 (all-C / all-F splitting, matrix filtered to a diagonal, P.shape[1] >= P.shape[0]) fed with the numbers
+                 traced INSIDE every real step (the splitting the step computed, nnz of the filtered matrix, the shapes
+                 handed to fit_candidates, the shape of the pairwise P) -> stall / proceed and rows + blocksize of the
+                 appended level, exact, on every step of every generated hierarchy; `ext_c04_build` = `Coarsen.build`
+                 instantiated with these steps on the table of traced inputs -> rows, blocksizes, exit reason, calls.
 search         : the five constructors x option grids x max_levels x max_coarse x formats x dtypes x keep x
                  candidates x symmetry flags, judged by an independent NumPy oracle of every clause.
 """
@@ -49,6 +55,11 @@ META = {
                     'Galerkin tolerance: |A_c - R A P| <= max(1e-10, 2000 eps(dtype)) * (|R||A||P|) entrywise; hierarchies with non-finite '
                     'values are skipped (counted)',
                     'a level without unknowns (0 x 0) counts as a violation (the step went on where the constructors\' own guards stop)',
+                    'measure of the strict decrease: rows (A.shape[0]) -- proved for every proceeding step of the five modelled guards '
+                    '(step_rows_decrease, sizes_decrease_unconditional); the node count rows / blocksize, which the aggregation-type loops '
+                    'compare with max_coarse, also decreases strictly except in a smoothed_aggregation step with fewer candidates than the '
+                    'block size of the level (sa_nodes_need_not_decrease; seen on the real code: 2 x 2 blocks, one candidate, naive '
+                    'aggregation of uncoupled nodes: rows 4 -> 2, nodes 2 -> 2); such steps are counted (feature sa-nodes-not-decreasing)',
                     'not "accepted by the constructors" (TypeError / ValueError / IndexError on the pinned tree), hence not generated: complex '
                     'input to ruge_stuben / air / pairwise solvers, float32 with rootnode / evolution / energy / relaxed candidates, BSR with '
                     'strength None / algebraic_distance / affinity / energy_based or diagonal_dominance or aggregate="pairwise", AIR + BSR '
@@ -134,13 +145,13 @@ def stencil2d(nx, ny, eps=1.0, conv=0.0):
     return M
 
 
-def gen_matrix(rng, ctor, quick):
+def gen_matrix(rng, ctor, quick, fam=None):
     """dense ndarray + tags; sizes skewed to small, a tail of larger ones so that 4-6 levels occur"""
     cplx_ok = ctor in ('sa', 'rn')
     fams = ['p1', 'p1', 'p2', 'p2', 'aniso', 'upwind', 'lap', 'spd', 'diag', 'blocks', 'tiny', 'elas']
     if cplx_ok:
-        fams += ['cherm', 'cherm', 'csym', 'cnonsym']
-    fam = str(rng.choice(fams))
+        fams += ['cherm', 'cherm', 'csym', 'csym', 'cnonsym']
+    fam = fam or str(rng.choice(fams))
     big = rng.random() < (0.25 if quick else 0.4)
     nmax = 150 if big else 40
     tags = {'fam': fam}
@@ -199,9 +210,15 @@ def gen_matrix(rng, ctor, quick):
         else:
             R = gen.spd_matrix(rng, n, kind).toarray()
             n = R.shape[0]
-            ph = np.exp(1j * rng.random(n) * 2 * np.pi)
-            M = (ph[:, None] * R) * ph[None, :]               # D R D: complex symmetric, not Hermitian
-            M = M + 0.25j * np.eye(n)
+            form = int(rng.integers(3))                       # three complex symmetric, non-Hermitian forms
+            if form == 0:
+                ph = np.exp(1j * rng.random(n) * 2 * np.pi)
+                M = (ph[:, None] * R) * ph[None, :] + 0.25j * np.eye(n)        # D R D + i s I
+            elif form == 1:
+                M = R + 1j * float(rng.choice([0.25, 0.5, 2.0])) * np.eye(n)   # complex-shifted Laplacian A + i s I
+            else:
+                Bs = np.triu((rng.random((n, n)) < 0.2) * rng.integers(-1, 2, size=(n, n)), 1).astype(float)
+                M = R + 1j * (0.3 * (Bs + Bs.T) + 0.1 * np.eye(n))             # A + i B, B real symmetric
             if fam == 'cnonsym':
                 M = M + np.triu(R, 1) * (0.3 + 0.2j)
     tags['complex'] = bool(np.iscomplexobj(M))
@@ -496,6 +513,27 @@ def gen_case(rng, quick, ctor=None):
 # running a constructor with the step calls recorded
 # ------------------------------------------------------------------------------------------------
 
+SPLITTERS = ('RS', 'PMIS', 'PMISc', 'CLJP', 'CLJPc', 'CR')
+
+
+def inner_targets(ctor, mod):
+    """(object, attribute, kind): the functions called inside the step whose results its guard reads (extension E13):
+    the C/F splitting, the row filter of AIR (nnz of the filtered matrix), fit_candidates (number of aggregates and of
+    candidates = columns of P), pairwise_aggregation (shape of P)"""
+    out = []
+    if ctor == 'rs':
+        out += [(mod.split, f, 'split') for f in SPLITTERS if hasattr(mod.split, f)]
+        out += [(mod, 'CR', 'split')] if hasattr(mod, 'CR') else []
+    elif ctor == 'air':
+        out += [(mod, f, 'split') for f in SPLITTERS if hasattr(mod, f)]
+        out += [(mod, 'filter_matrix_rows', 'filter')]
+    elif ctor in ('sa', 'rn'):
+        out += [(mod, 'fit_candidates', 'fit')]
+    else:
+        out += [(mod, 'pairwise_aggregation', 'pw')]
+    return out
+
+
 @contextlib.contextmanager
 def traced(ctor):
     modname, _, stepname = CT[ctor]
@@ -505,21 +543,52 @@ def traced(ctor):
     if orig is None:
         yield None
         return
+    cur = [None]
 
     def wrapper(levels, *a, **k):
         rec = {'state': np.random.get_state(), 'nlev': len(levels), 'A': levels[-1].A.copy(),
-               'B': getattr(levels[-1], 'B', None), 'args': a}
+               'B': getattr(levels[-1], 'B', None), 'args': a, 'inner': {}}
         calls.append(rec)
-        ret = orig(levels, *a, **k)
+        cur[0] = rec
+        try:
+            ret = orig(levels, *a, **k)
+        finally:
+            cur[0] = None
         rec['ret'] = bool(ret)
         rec['nlev_after'] = len(levels)
         return ret
 
+    def spy(f, kind):
+        def inner(*a, **k):
+            out = f(*a, **k)
+            rec = cur[0]
+            if rec is not None:
+                try:
+                    if kind == 'split':
+                        rec['inner']['split'] = np.array(out).copy()        # nested calls: the outermost returns last
+                    elif kind == 'filter':
+                        rec['inner']['nnz'] = int(a[0].nnz)                 # filtered in place
+                    elif kind == 'fit':
+                        rec['inner'].setdefault('fit', (int(a[0].shape[1]), int(np.asarray(a[1]).shape[1])))
+                    elif kind == 'pw':
+                        rec['inner']['P'] = (int(out[0].shape[0]), int(out[0].shape[1]))
+                except Exception:  # noqa: BLE001
+                    rec['inner']['spy-failed'] = kind
+            return out
+        return inner
+
+    saved = []
+    for obj, attr, kind in inner_targets(ctor, mod):
+        f = getattr(obj, attr)
+        saved.append((obj, attr, f))
+        setattr(obj, attr, spy(f, kind))
     setattr(mod, stepname, wrapper)
     try:
         yield calls
     finally:
         setattr(mod, stepname, orig)
+        for obj, attr, f in saved:
+            setattr(obj, attr, f)
 
 
 class BuildTimeout(Exception):
@@ -881,6 +950,63 @@ def enc_mat(M):
     return f'{r}:{c}:' + enc_list(M.reshape(-1), f)
 
 
+def step_token(ctor, rec):
+    """the numbers the guard of the real step read (traced inside the step), encoded for `ext_c04_step`; None = the step
+    did not get as far as computing them"""
+    A = rec['A']
+    bs = blocksize_of(A)
+    inn = rec.get('inner', {})
+
+    def bits(v):
+        return ''.join(str(int(x)) for x in np.asarray(v).reshape(-1)) or '-'
+
+    if ctor == 'rs':
+        return bits(inn['split']) if 'split' in inn else None
+    if ctor == 'air':
+        nnz = inn.get('nnz', int(A.nnz))       # no filtering: the guard reads levels[-1].A itself
+        return f'{nnz}:' + (bits(inn['split']) if 'split' in inn else '-')
+    if ctor == 'sa':
+        return f'{inn["fit"][0]}:{inn["fit"][1]}' if 'fit' in inn else None
+    if ctor == 'rn':
+        if 'fit' not in inn:
+            return None
+        # rootnode fits B[:, 0:blocksize]: the model derives the columns of P from the block size
+        return f'{inn["fit"][0]}' if inn['fit'][1] == bs else f'{inn["fit"][0]}:{inn["fit"][1]}'
+    return f'{inn["P"][0]}:{inn["P"][1]}' if 'P' in inn else None
+
+
+def queue_steps(ctx, case, ml, calls, info, ML, MC, reason, real_calls, pending, viol):
+    """extension E13: every call of the real step against the model of its guard, and the whole loop built from them"""
+    ctor = case['ctor']
+    rows, bss = info['rows'], info['bs']
+    toks = []
+    for rec in calls:
+        k = rec['nlev'] - 1
+        if 'ret' not in rec or k >= len(rows):
+            return
+        tok = step_token(ctor, rec)
+        if tok is None:
+            ctx.feat('step-untraced:' + ctor)
+            return
+        toks.append(tok)
+        frows, fbs = int(rec['A'].shape[0]), blocksize_of(rec['A'])
+        if rec['ret']:
+            impl = 'stall'
+        elif k + 1 < len(rows):
+            impl = f'proceed {rows[k + 1]} {bss[k + 1]}'
+            if BLOCKWISE[ctor] and not rows[k + 1] // bss[k + 1] < frows // fbs:
+                ctx.feat('sa-nodes-not-decreasing' if ctor == 'sa' and rec['inner'].get('fit', (0, fbs))[1] < fbs
+                         else 'nodes-not-decreasing:' + ctor)
+        else:
+            impl = 'proceed without a new level'
+        ctx.feat(f'step:{ctor}:' + ('stall' if rec['ret'] else 'proceed') + (':bsr' if fbs > 1 else ''))
+        if ctor == 'air' and rec['ret'] and tok.endswith(':-'):
+            ctx.feat('step:air:stall-diagonal')
+        pending.append(('xstep', f'ext_c04_step {ctor} {k} {frows} {fbs} {tok}', impl, case, viol))
+    line = f'ext_c04_build {ctor} {ML} {MC} {rows[0]} {bss[0]}' + ''.join(' ' + t for t in toks)
+    pending.append(('xbuild', line, f'{enc_ints(rows)};{enc_ints(bss)};{reason};{real_calls}', case, viol))
+
+
 def eval_case(ctx, case, pending):
     """build, judge with NumPy, queue the Lean requests"""
     ctor, kw = case['ctor'], case['kw']
@@ -969,6 +1095,9 @@ def eval_case(ctx, case, pending):
         # the bare loop on the sizes the constructor's loop looks at, with the effective limits
         pnode = node + ([probe // pbs[-1] if BLOCKWISE[ctor] else probe] if probe is not None else [])
         pending.append(('coarsen', f'c04_coarsen {ML} {MC} {enc_ints(pnode)}', f'{enc_ints(node)};{reason};{real_calls}', case, viol))
+    # ---- Lean: the guards of the steps on the numbers traced inside the real steps
+    if calls is not None:
+        queue_steps(ctx, case, ml, calls, info, ML, MC, reason, real_calls, pending, viol)
     # ---- Lean: the proved checker on small hierarchies
     if rows[0] <= LEAN_NMAX and info.get('tol', 1) <= 1e-10 and all(hasattr(L, 'P') and hasattr(L, 'R') for L in ml.levels[:-1]):
         fo = kw.get('filter_operator') if ctor == 'air' else None
@@ -1023,7 +1152,8 @@ def flush(ctx, pending):
                     viol(f'the proved hierarchy checker rejects the returned levels: {o}')
             continue
         if o != impl:
-            ctx.corr('c04_' + what, {'line': line[:600], 'ctor': case['ctor']}, o, impl)
+            op = {'xstep': 'ext_c04_step', 'xbuild': 'ext_c04_build'}.get(what, 'c04_' + what)
+            ctx.corr(op, {'line': line[:600], 'ctor': case['ctor']}, o, impl)
     pending.clear()
 
 
@@ -1058,12 +1188,25 @@ def levelize_correspondence(ctx):
 def adaptive_case(ctx, rng):
     """adaptive_sa_solver (search only): structure of the hierarchy it returns, limits as given by the user"""
     from pyamg.aggregation import adaptive_sa_solver
-    D, tags = gen_matrix(rng, 'rs', True)
+    # the symmetry flag decides R = P^H / P^T: real matrices cannot tell them apart, so two thirds of the cases are
+    # complex Hermitian with 'hermitian' resp. complex symmetric (non-Hermitian) with 'symmetric' (the flag is the
+    # user's claim: sometimes the other one is passed; aSA implements no 'nonsymmetric')
+    r = rng.random()
+    if r < 0.34:
+        D, tags = gen_matrix(rng, 'rs', True)
+        sym = str(pick(rng, ['hermitian', 'symmetric']))
+    elif r < 0.67:
+        D, tags = gen_matrix(rng, 'sa', True, fam='cherm')
+        sym = 'hermitian' if rng.random() < 0.8 else 'symmetric'
+    else:
+        D, tags = gen_matrix(rng, 'sa', True, fam='csym')
+        sym = 'symmetric' if rng.random() < 0.8 else 'hermitian'
     if D.shape[0] > 80 or D.shape[0] < 3:
         return
+    ctx.feat('adaptive:' + tags['fam'] + '/' + sym)
     ML, MC = int(pick(rng, [2, 3, 4, 10])), int(pick(rng, [1, 5, 20]))
     kw = {'num_candidates': int(pick(rng, [1, 2])), 'candidate_iters': 3, 'improvement_iters': int(pick(rng, [0, 1])),
-          'max_levels': ML, 'max_coarse': MC, 'symmetry': str(pick(rng, ['hermitian', 'symmetric'])),
+          'max_levels': ML, 'max_coarse': MC, 'symmetry': sym,
           'smooth': pick(rng, [None, ('jacobi', {}), 'richardson']), 'keep': bool(rng.random() < 0.5)}
     seed = int(rng.integers(2 ** 31))
     A = gen.int32csr(sp.csr_array(D))
@@ -1126,9 +1269,9 @@ def run_cases(ctx, n, ctor=None):
             ctx.feat('budget-cut')
             break
         r = rng.random()
-        if ctor is None and r < 0.03:
+        if ctor is None and r < 0.04:
             adaptive_case(ctx, rng)
-        elif ctor is None and r < 0.05:
+        elif ctor is None and r < 0.06:
             bare_solver_case(ctx, rng)
         else:
             eval_case(ctx, gen_case(rng, ctx.quick, ctor), pending)
